@@ -190,7 +190,7 @@ pub(crate) fn decompress(x: &[u8], n: usize) -> Option<Vec<i16>> {
             index += 1;
             high_bits += 1;
 
-            if high_bits == 95 || index + 1 == bitvector.len() {
+            if high_bits == 95 || index + 1 >= bitvector.len() {
                 return None;
             }
         }
